@@ -200,9 +200,9 @@ def arrange(segs, edge_lines, rest, order):
 
 
 def e_cases(quick):
-  posts = [None] if quick else [None, ["rename", "a", "z"],
-                                ["rename", "b", "y"], ["rm", "u"],
-                                ["rm", "c"], ["rm", "e"]]
+  posts = [None, ["rm", "e"], ["rename", "a", "z"]] if quick else [
+      None, ["rename", "a", "z"], ["rename", "b", "y"], ["rm", "u"],
+      ["rm", "c"], ["rm", "e"]]
   vlevels = [1] if quick else [0, 1, 3]
   for vlevel in vlevels:
     for post in posts:
@@ -246,9 +246,9 @@ TOPOLOGIES = (("A", "B"), ("B", "A"), ("A", "A"))
 
 
 def lcg_cases(quick):
-  posts = [None] if quick else [None, ["rename", "A", "Z"],
-                                ["rename", "B", "Y"], ["rm", "u"],
-                                ["rm", "C"]]
+  posts = [None, ["rm", "u"]] if quick else [None, ["rename", "A", "Z"],
+                                             ["rename", "B", "Y"], ["rm", "u"],
+                                             ["rm", "C"]]
   vlevels = [1] if quick else [0, 1, 3]
   for vlevel in vlevels:
     for post in posts:
